@@ -27,6 +27,9 @@ type RecSc struct {
 	Stream core.Hex `json:"stream"`
 	Chunks []int    `json:"chunks"`
 	Deltas []int32  `json:"deltas_ms"`
+	// AddDuring >= 0 (via "smf" only): before that chunk is sent, another (closed) track is
+	// added to the SMF that is being recorded into.
+	AddDuring int `json:"add_during"`
 }
 
 type recWorld struct{}
@@ -85,12 +88,12 @@ func (recWorld) Gen(seed uint64, tier string) core.Scenario {
 	s.Stream = stream
 	s.Chunks = r.Partition(len(stream), r.Weighted(1, 2, 3, 4))
 	// the largest gap whose tick count still fits the format's maximum delta
-	maxMs := new(big.Rat).SetFrac(big.NewInt(0x0FFFFFFF*60000*10), big.NewInt(int64(s.Res)*int64(s.BPMx10)))
-	maxGap, _ := maxMs.Float64()
-	if maxGap > 600000 {
-		maxGap = 600000
-	}
+	maxGap := float64(s.maxGapMs())
 	budget := maxGap
+	s.AddDuring = -1
+	if s.Via == "smf" && r.Chance(1, 4) {
+		s.AddDuring = r.Intn(len(s.Chunks) + 1)
+	}
 	s.Deltas = make([]int32, len(s.Chunks))
 	for i := range s.Deltas {
 		var d int32
@@ -104,7 +107,7 @@ func (recWorld) Gen(seed uint64, tier string) core.Scenario {
 		case 3:
 			d = int32(r.PickInt(999, 1000, 1001, 2500, 60000))
 		default:
-			d = int32(r.PickInt(120000, 599999, 600000))
+			d = int32(r.PickInt(120000, 599999, 600000, 1<<24, 1<<24+1, 1<<25, 1<<29))
 		}
 		if float64(d) > budget {
 			d = int32(budget)
@@ -125,8 +128,8 @@ func (s *RecSc) asLive() *Live {
 func (s *RecSc) maxGapMs() int64 {
 	m := new(big.Rat).SetFrac(big.NewInt(0x0FFFFFFF*60000*10), big.NewInt(int64(s.Res)*int64(s.BPMx10)))
 	f, _ := m.Float64()
-	if f > 600000 {
-		f = 600000
+	if f > 1<<30 {
+		f = 1 << 30 // time stamps are int32 milliseconds
 	}
 	return int64(f)
 }
@@ -186,9 +189,17 @@ func (s *RecSc) Shrinks(try0 func(core.Scenario) bool) bool {
 			}
 		}
 	}
+	if s.AddDuring >= 0 {
+		c := *s
+		c.AddDuring = -1
+		if try(&c) {
+			return true
+		}
+	}
 	if s.Via != "track" {
 		c := *s
 		c.Via = "track"
+		c.AddDuring = -1
 		if try(&c) {
 			return true
 		}
@@ -240,6 +251,14 @@ func (s *RecSc) Run(env *core.Env, st *core.Stats) (vs []core.Violation) {
 			}
 		}
 		st.ReachKey("via-" + s.Via)
+		if s.AddDuring >= 0 && s.Via == "smf" {
+			st.Probe("track-added-to-the-SMF-while-recording")
+		}
+		var tot int64
+		for _, d := range s.Deltas {
+			tot += int64(d)
+		}
+		st.ProbeIf(tot > 1<<24, "session-longer-than-2^24-ms")
 		st.FaultN("wire-chunk-boundary", int64(len(s.Chunks)-1))
 		var total int64
 		for _, d := range s.Deltas {
@@ -289,6 +308,12 @@ func (s *RecSc) Run(env *core.Env, st *core.Stats) (vs []core.Violation) {
 		}
 		pos := 0
 		for i, n := range s.Chunks {
+			if s.AddDuring == i && s.Via == "smf" {
+				var extra smf.Track
+				extra.Add(0, smf.MetaText("added while recording"))
+				extra.Close(0)
+				file.Add(extra)
+			}
 			drv.Sleep(time.Duration(s.Deltas[i]) * time.Millisecond)
 			if err := out.Send(s.Stream[pos : pos+n]); err != nil {
 				panic(fmt.Sprintf("Send: %v", err))
@@ -308,10 +333,22 @@ func (s *RecSc) Run(env *core.Env, st *core.Stats) (vs []core.Violation) {
 			file = f
 			track = f.Tracks[0]
 		} else if s.Via == "smf" {
-			if len(file.Tracks) != 1 {
-				panic(fmt.Sprintf("SMF.RecordFrom left %d tracks", len(file.Tracks)))
+			// the recorded track is the one that is not the track added meanwhile
+			var rec []smf.Track
+			for _, t := range file.Tracks {
+				if len(t) > 0 && t[0].Message.Is(smf.MetaTextMsg) {
+					continue
+				}
+				rec = append(rec, t)
 			}
-			track = file.Tracks[0]
+			if len(rec) != 1 {
+				panic(fmt.Sprintf("SMF.RecordFrom left %d recorded tracks (%d tracks in the file)", len(rec), len(file.Tracks)))
+			}
+			track = rec[0]
+			only := smf.New()
+			only.TimeFormat = file.TimeFormat
+			only.Add(track)
+			file = only
 		} else {
 			track.Close(0)
 			file.Add(track)
